@@ -29,7 +29,7 @@ CHECKS = {
             "distinct node names are counted, no cache attached; D of large pairs is computed by the harness"),
     "C10": (MC, "7.C10", "TLC exhaustive run of MastCursor.tla (tree x start x every Forward/Backward sequence: Agrees, NoFailure; SeekOK for every probe of every layer) + TLC validation of recorded cursor walks and SeekIter runs against the sorted sequence (TraceCursor.tla)",
             "off-end is absorbing; the sorted sequence comes from the driver's bookkeeping"),
-    "C03": (MC, "7.C03", "TLC exhaustive run of Flush.tla (main / dispatcher / workers / reader as separate actions: every interleaving, completion order, failure subset and retry within the constants; liveness under weak fairness) + MakeRoot executions of the real code under a controlled Persist, schedules enumerated depth-first by re-execution, recorded and validated by TLC against TraceFlush.tla",
+    "C03": (MC, "7.C03", "TLC exhaustive run of Flush.tla (main / dispatcher / workers / reader as separate actions: every interleaving, completion order, failure subset and retry within the constants; liveness under weak fairness); the same invariants derived from an inductive invariant with Apalache (FlushInd.tla: a fixed number of nodes, every gate size, failure budget, number of attempts, clean set, cache contents) + MakeRoot executions of the real code under a controlled Persist, schedules enumerated depth-first by re-execution, recorded and validated by TLC against TraceFlush.tla",
             "schedules act through the caller-supplied Persist and Marshal only; unrealisable decisions end a branch; exhaustive within the constants"),
     "C12": ("fault_enumeration", "7.C12", "enumeration on the real code of every fallible call position (Persist.Load, KeyCompare, Marshal, Unmarshal; pairs for comparison callbacks) of every operation on prepared trees; each run (result, tree observed through a fault-free view, retry) validated by TLC against TraceFaults.tla, whose normal outcomes come from the map model, ModelDiff and the walk oracle",
             "positions come from a dry run on an identically prepared tree; panics under a fault are counted, not judged; two recorded findings (Delete/shrink, Insert/grow) are matched by their input class"),
